@@ -1,4 +1,5 @@
 mod case;
+mod crash;
 mod fsck;
 mod gen;
 mod known;
@@ -44,6 +45,7 @@ fn plan(prop: &str, tier: &str) -> (&'static str, u64) {
         "C07" => ("seq", if thorough { 200_000 } else { 10_000 }),
         "C08" => ("seq", if thorough { 120_000 } else { 6_000 }),
         "C03" => ("seq", if thorough { 150_000 } else { 8_000 }),
+        "C02" => ("crash", if thorough { 20_000 } else { 1_200 }),
         _ => ("none", 0),
     }
 }
@@ -220,7 +222,7 @@ impl Acc {
 fn cmd_worker(args: &[String]) -> i32 {
     let prop = &args[0];
     let tier = &args[1];
-    let w: u64 = args[2].parse().unwrap();
+    let start: u64 = args[2].parse().unwrap();
     let n: u64 = args[3].parse().unwrap();
     let base: u64 = args[4].parse().unwrap();
     let count: u64 = args[5].parse().unwrap();
@@ -228,15 +230,21 @@ fn cmd_worker(args: &[String]) -> i32 {
     let (engine, _) = plan(prop, tier);
     let progress = format!("{}.progress", out);
     let mut acc = Acc::default();
-    let mut i = w;
+    let mut i = start;
+    let mut since_partial = 0u32;
     while i < count {
         let seed = case_seed(base, prop, i);
         // announce the seed first: if this process dies, the orchestrator knows where
         let _ = std::fs::write(&progress, format!("{} {}", i, seed));
-        let case = props::draw_case(prop, engine, seed);
+        let case = props::draw_case(prop, engine, seed, tier);
         let v = props::execute(&case);
         acc.add(&case, &v);
         i += n;
+        since_partial += 1;
+        if since_partial >= 200 {
+            since_partial = 0;
+            let _ = std::fs::write(format!("{}.partial", out), serde_json::to_vec(&acc.to_json()).unwrap());
+        }
     }
     let _ = std::fs::remove_file(&progress);
     std::fs::write(out, serde_json::to_vec(&acc.to_json()).unwrap()).unwrap();
@@ -263,32 +271,45 @@ fn cmd_check(prop: &str, tier: &str) -> i32 {
     let outdir = format!("{}/out/work/{}-{}-{}", root, prop, tier, std::process::id());
     std::fs::create_dir_all(&outdir).unwrap();
     let exe = std::env::current_exe().unwrap();
-    let mut children = Vec::new();
-    for w in 0..n {
-        let out = format!("{}/w{}.json", outdir, w);
+    let spawn = |w: u64, start: u64, gen: u32| {
+        let out = format!("{}/w{}-{}.json", outdir, w, gen);
         let ch = std::process::Command::new(&exe)
-            .args(["worker", prop, tier, &w.to_string(), &n.to_string(), &base.to_string(), &count.to_string(), &out])
+            .args(["worker", prop, tier, &start.to_string(), &n.to_string(), &base.to_string(), &count.to_string(), &out])
             .spawn()
             .expect("spawn worker");
-        children.push((w, ch, out));
-    }
+        (w, ch, out, gen)
+    };
+    let mut children: Vec<(u64, std::process::Child, String, u32)> = (0..n).map(|w| spawn(w, w, 0)).collect();
     let mut acc = Acc::default();
     let mut harness_errors: Vec<String> = Vec::new();
-    let mut died: Vec<(u64, String)> = Vec::new();
-    for (w, mut ch, out) in children {
+    // a worker that dies (signal, abort, stack overflow) is a finding for the seed it announced
+    let mut died: Vec<(u64, u64, String)> = Vec::new();
+    while let Some((w, mut ch, out, gen)) = children.pop() {
         let st = ch.wait().expect("wait");
         match std::fs::read(&out).ok().and_then(|b| serde_json::from_slice::<Value>(&b).ok()) {
             Some(v) if st.success() => acc.merge_json(&v),
             _ => {
                 let p = std::fs::read_to_string(format!("{}.progress", out)).unwrap_or_default();
-                died.push((w, format!("worker {} ended with {:?} while at (index seed) = {}", w, st, p)));
+                let mut it = p.split_whitespace();
+                let idx: Option<u64> = it.next().and_then(|x| x.parse().ok());
+                let seed: Option<u64> = it.next().and_then(|x| x.parse().ok());
+                // partial results of the dead worker
+                if let Some(v) = std::fs::read(format!("{}.partial", out)).ok().and_then(|b| serde_json::from_slice::<Value>(&b).ok()) {
+                    acc.merge_json(&v);
+                }
+                match (idx, seed) {
+                    (Some(i), Some(sd)) => {
+                        died.push((i, sd, format!("{:?}", st)));
+                        if gen < 24 && i + n < count {
+                            children.push(spawn(w, i + n, gen + 1));
+                        }
+                    }
+                    _ => harness_errors.push(format!("worker {} ended with {:?} before announcing a seed", w, st)),
+                }
             }
         }
     }
     harness_errors.extend(acc.harness.iter().cloned());
-    for (_, d) in &died {
-        harness_errors.push(d.clone());
-    }
 
     // minimise and classify
     let known = known::load(&format!("{}/known_findings.json", root));
@@ -302,6 +323,14 @@ fn cmd_check(prop: &str, tier: &str) -> i32 {
     let mut new_violations: Vec<(String, String)> = Vec::new();
     let mut known_hits: BTreeMap<String, u64> = BTreeMap::new();
     let mut minimised = Vec::new();
+    for (i, seed, st) in &died {
+        let case = props::draw_case(prop, engine, *seed, tier);
+        let path = format!("{}/{}-{}-died.json", replay_dir, prop, seed);
+        let mut doc = case.to_json();
+        doc["violation"] = json!({"oracle": "process-died", "site": st, "detail": format!("the process executing run index {} died: {}", i, st)});
+        std::fs::write(&path, serde_json::to_string_pretty(&doc).unwrap()).unwrap();
+        new_violations.push((path, format!("process-died: the simulated run with seed {} killed its process ({})", seed, st)));
+    }
     for (key, (c, v)) in by_site.iter().take(8) {
         let case = match Case::from_json(c) {
             Some(c) => c,
@@ -310,8 +339,22 @@ fn cmd_check(prop: &str, tier: &str) -> i32 {
                 continue;
             }
         };
-        let (small, runs) = shrink::shrink(&case, &|c| props::execute(c), 600);
-        let verdict = props::execute(&small);
+        let budget = if case.engine == "seq" { 600 } else { 250 };
+        let (mut small, runs) = shrink::shrink(&case, &|c| props::execute(c), budget);
+        let mut verdict = props::execute(&small);
+        // engines that search a fault space record the one failing point for the replay
+        if let Some(o) = verdict.extra_out.as_object() {
+            if !o.is_empty() {
+                let mut pinned = small.clone();
+                pinned.extra = verdict.extra_out.clone();
+                let v2 = props::execute(&pinned);
+                if v2.violation.is_some() {
+                    small = pinned;
+                    small.trace = Some(v2.trace);
+                    verdict = v2;
+                }
+            }
+        }
         let viol = verdict.violation.clone().or_else(|| violation_from(v));
         let viol = match viol {
             Some(x) => x,
@@ -481,8 +524,9 @@ fn cmd_run(prop: &str, seed_or_index: &str, verbose: bool) -> i32 {
     let (engine, _) = plan(prop, "quick");
     let idx: u64 = seed_or_index.parse().unwrap_or(0);
     let seed = if seed_or_index.starts_with('#') { seed_or_index[1..].parse().unwrap() } else { case_seed(verif_seed(), prop, idx) };
-    let case = props::draw_case(prop, engine, seed);
+    let case = props::draw_case(prop, engine, seed, "quick");
     let v = props::execute(&case);
+    println!("counters={:?}", v.counters);
     println!("seed={} steps={} commits={} trace={:016x}", seed, v.stats.steps, v.stats.commits, v.trace);
     println!("probes={:?}", v.stats.probes);
     if verbose {
